@@ -84,17 +84,21 @@ Proof.
   intros s. unfold stmt_read. destruct (dead s sd); cbn; [apply Rframe_refl|].
   apply Rframe_same; cbn; auto; destruct sd; reflexivity.
 Qed.
-Lemma frame_write A q (f : table -> A * table) : pres (Rframe sd) (stmt_write sd q f).
+Lemma frame_write A q rf (f : table -> A * table) : pres (Rframe sd) (stmt_write sd q rf f).
 Proof.
   intros s. unfold stmt_write. destruct sd.
   - destruct (pending s) eqn:E; cbn.
     + apply Rframe_same; cbn; auto; try discriminate; try (intros; discriminate).
-    + destruct (f (committed s)) as [a t]. cbn. apply Rframe_same; cbn; auto; try discriminate; try (intros; discriminate).
+    + destruct (rf (committed s)); cbn; [apply Rframe_same; cbn; auto; try discriminate; try (intros; discriminate)|].
+      destruct (f (committed s)) as [a t]. cbn. apply Rframe_same; cbn; auto; try discriminate; try (intros; discriminate).
   - destruct (tobs s); cbn; [apply Rframe_refl|].
+    match goal with |- context [rf ?x] => destruct (rf x) end; cbn;
+      [apply Rframe_same; cbn; auto; try discriminate; try (intros; discriminate)|].
     match goal with |- context [f ?x] => destruct (f x) as [a t] end. cbn. apply Rframe_same; cbn; auto; try discriminate; try (intros; discriminate).
 Qed.
-Lemma frame_insert r : pres (Rframe sd) (db_insert sd r). Proof. apply frame_write. Qed.
-Lemma frame_update id c v : pres (Rframe sd) (db_update sd id c v). Proof. apply frame_write. Qed.
+Lemma frame_insert r : pres (Rframe sd) (db_insert cfg sd r). Proof. apply frame_write. Qed.
+Lemma frame_update id c v : pres (Rframe sd) (db_update cfg sd id c v). Proof. apply frame_write. Qed.
+Lemma frame_update_cols id l : pres (Rframe sd) (db_update_cols cfg sd id l). Proof. apply frame_write. Qed.
 Lemma frame_delete id : pres (Rframe sd) (db_delete sd id). Proof. apply frame_write. Qed.
 Lemma frame_with_cn s c : Rframe sd s (with_cn s sd c).
 Proof. apply Rframe_same; destruct sd; cbn; auto. Qed.
@@ -118,17 +122,18 @@ Proof.
 Qed.
 
 Ltac frame_inst :=
-  first [ apply Rframe_refl | apply Rframe_trans | apply frame_read | apply frame_insert | apply frame_update
+  first [ apply Rframe_refl | apply Rframe_trans | apply frame_read | apply frame_insert | apply frame_update | apply frame_update_cols
         | apply frame_delete | apply frame_upd | apply frame_new | apply frame_cch | apply frame_del
         | apply frame_push | apply frame_drop ].
-Lemma frame_so_read o c : pres (Rframe sd) (so_read sd o c). Proof. apply fp_so_read; frame_inst. Qed.
-Lemma frame_so_set o c v : pres (Rframe sd) (so_set sd o c v). Proof. apply fp_so_set; frame_inst. Qed.
-Lemma frame_so_destroy o : pres (Rframe sd) (so_destroy sd o). Proof. apply fp_so_destroy; frame_inst. Qed.
+Lemma frame_so_read o c : pres (Rframe sd) (so_read cfg sd o c). Proof. apply fp_so_read; frame_inst. Qed.
+Lemma frame_so_set o c v : pres (Rframe sd) (so_set cfg sd o c v). Proof. apply fp_so_set; frame_inst. Qed.
+Lemma frame_so_destroy o : pres (Rframe sd) (so_destroy sd o). Proof. apply (fp_so_destroy cfg); frame_inst. Qed.
 Lemma frame_so_expire o : pres (Rframe sd) (so_expire cfg sd o). Proof. apply fp_so_expire; frame_inst. Qed.
-Lemma frame_so_sync o : pres (Rframe sd) (so_sync sd o). Proof. apply fp_so_sync; frame_inst. Qed.
+Lemma frame_so_sync o : pres (Rframe sd) (so_sync cfg sd o). Proof. apply fp_so_sync; frame_inst. Qed.
+Lemma frame_so_sync_update o : pres (Rframe sd) (so_sync_update cfg sd o). Proof. apply fp_so_sync_update; frame_inst. Qed.
 
 Definition frame_run_op :=
-  fp_run_op cfg sd (Rframe sd) (Rframe_refl sd) (Rframe_trans sd) frame_read frame_insert frame_update frame_delete frame_upd frame_new frame_cch
+  fp_run_op cfg sd (Rframe sd) (Rframe_refl sd) (Rframe_trans sd) frame_read frame_insert frame_update frame_update_cols frame_delete frame_upd frame_new frame_cch
             frame_del frame_push frame_drop.
 Definition frame_expire_ids :=
   fp_expire_ids cfg sd (Rframe sd) (Rframe_refl sd) (Rframe_trans sd) frame_upd frame_cch.
@@ -198,17 +203,20 @@ Variable cfg : config.
 Variable sd : side.
 Lemma lock_read q : pres Rlock (stmt_read sd q).
 Proof. intros s. unfold stmt_read. destruct (dead s sd); cbn; [apply Rlock_refl|apply Rlock_same; auto]. Qed.
-Lemma lock_write A q (f : table -> A * table) : pres Rlock (stmt_write sd q f).
+Lemma lock_write A q rf (f : table -> A * table) : pres Rlock (stmt_write sd q rf f).
 Proof.
   intros s. unfold stmt_write. destruct sd.
   - destruct (pending s) eqn:E; cbn.
     + apply Rlock_same; cbn; auto.
-    + destruct (f (committed s)) as [a t]. cbn. split; cbn; auto. congruence.
+    + destruct (rf (committed s)); cbn; [apply Rlock_same; cbn; auto|].
+      destruct (f (committed s)) as [a t]. cbn. split; cbn; auto. congruence.
   - destruct (tobs s); cbn; [apply Rlock_refl|].
+    match goal with |- context [rf ?x] => destruct (rf x) end; cbn; [split; cbn; auto; intros _; split; [auto|discriminate]|].
     match goal with |- context [f ?x] => destruct (f x) as [a t] end. cbn. split; cbn; auto. intros _. split; [auto|discriminate].
 Qed.
-Lemma lock_insert r : pres Rlock (db_insert sd r). Proof. apply lock_write. Qed.
-Lemma lock_update id c v : pres Rlock (db_update sd id c v). Proof. apply lock_write. Qed.
+Lemma lock_insert r : pres Rlock (db_insert cfg sd r). Proof. apply lock_write. Qed.
+Lemma lock_update id c v : pres Rlock (db_update cfg sd id c v). Proof. apply lock_write. Qed.
+Lemma lock_update_cols id l : pres Rlock (db_update_cols cfg sd id l). Proof. apply lock_write. Qed.
 Lemma lock_delete id : pres Rlock (db_delete sd id). Proof. apply lock_write. Qed.
 Lemma lock_with_cn s c : Rlock s (with_cn s sd c).
 Proof. apply Rlock_same; destruct sd; cbn; auto. Qed.
@@ -225,7 +233,7 @@ Proof. intros _. apply Rlock_same; cbn; auto. Qed.
 Lemma lock_drop s h o : nth h (slots s) None = Some (sd, o) -> Rlock s (with_slots s (set_nth h None (slots s))).
 Proof. intros _. apply Rlock_same; cbn; auto. Qed.
 Definition lock_run_op :=
-  fp_run_op cfg sd Rlock Rlock_refl Rlock_trans lock_read lock_insert lock_update lock_delete lock_upd lock_new lock_cch lock_del lock_push lock_drop.
+  fp_run_op cfg sd Rlock Rlock_refl Rlock_trans lock_read lock_insert lock_update lock_update_cols lock_delete lock_upd lock_new lock_cch lock_del lock_push lock_drop.
 End LockInst.
 
 (* while the transaction has uncommitted changes, no operation other than commit / rollback changes the
@@ -253,13 +261,15 @@ Section ObsInst.
 Variable cfg : config.
 Lemma obs_read q : pres Robs (stmt_read Txn q).
 Proof. intros s. unfold stmt_read. cbn. destruct (tobs s) eqn:E; cbn; [apply Robs_refl|]. intros H. cbn in H. congruence. Qed.
-Lemma obs_write A q (f : table -> A * table) : pres Robs (stmt_write Txn q f).
+Lemma obs_write A q rf (f : table -> A * table) : pres Robs (stmt_write Txn q rf f).
 Proof.
   intros s. unfold stmt_write. destruct (tobs s) eqn:E; cbn; [apply Robs_refl|].
+  match goal with |- context [rf ?x] => destruct (rf x) end; cbn; [intros H; congruence|].
   match goal with |- context [f ?x] => destruct (f x) as [a t] end. cbn. intros H. congruence.
 Qed.
-Lemma obs_insert r : pres Robs (db_insert Txn r). Proof. apply obs_write. Qed.
-Lemma obs_update id c v : pres Robs (db_update Txn id c v). Proof. apply obs_write. Qed.
+Lemma obs_insert r : pres Robs (db_insert cfg Txn r). Proof. apply obs_write. Qed.
+Lemma obs_update id c v : pres Robs (db_update cfg Txn id c v). Proof. apply obs_write. Qed.
+Lemma obs_update_cols id l : pres Robs (db_update_cols cfg Txn id l). Proof. apply obs_write. Qed.
 Lemma obs_delete id : pres Robs (db_delete Txn id). Proof. apply obs_write. Qed.
 Lemma obs_with_cn s c : Robs s (with_cn s Txn c).
 Proof. apply Robs_same; cbn; auto. Qed.
@@ -276,7 +286,7 @@ Proof. intros _. apply Robs_same; cbn; auto. Qed.
 Lemma obs_drop s h o : nth h (slots s) None = Some (Txn, o) -> Robs s (with_slots s (set_nth h None (slots s))).
 Proof. intros _. apply Robs_same; cbn; auto. Qed.
 Definition obs_run_op :=
-  fp_run_op cfg Txn Robs Robs_refl Robs_trans obs_read obs_insert obs_update obs_delete obs_upd obs_new obs_cch obs_del obs_push obs_drop.
+  fp_run_op cfg Txn Robs Robs_refl Robs_trans obs_read obs_insert obs_update obs_update_cols obs_delete obs_upd obs_new obs_cch obs_del obs_push obs_drop.
 End ObsInst.
 
 (* a finished transaction sends no statement and leaves the database alone, whatever is tried on it *)
